@@ -2,7 +2,7 @@ SPECIFICATION Spec
 CONSTANTS
   VCodec = "avc"
   ACodec = "aac"
-  MaxPub = 6
+  MaxPub = 5
   MaxVer = 2
   VKinds <- AvcCore
   DtPool <- Dt2
